@@ -331,5 +331,6 @@ PROPS["C12"] = dict(
     bounds="one step; unwind 11; strict off",
     outside="the OS's HALT and exception handlers running to completion; display output of whole programs",
     assumptions=_K_ASSUME,
-    harnesses=_kfam("c12_", ["same_step"], [], cover_tags=["mem", "calls", "depth", "c12"]),
+    # the harness assumes the virtual step succeeds, so "[step] step reports an error" is not coverable
+    harnesses=[dict(h, cover_tags=["mem", "calls", "depth", "c12"]) for h in _kfam("c12_", ["same_step"], [])],
 )
